@@ -314,6 +314,79 @@ def check_case(ctx, case):
                 ctx.violation(name + ":status_wrong", {"got": r.status})
             if td and tuple(float(x) for x in r.quantile) != quantiles(td, got_obs):
                 ctx.violation(name + ":quantile_wrong", {"got": list(r.quantile), "want": quantiles(td, got_obs)})
+        # ---------------- M-test with one synthetic event within round-off BELOW THE FIRST magnitude edge (the double just below it).
+        # The binning tolerance may take it into the first bin (A) or the gridding may treat it as below the minimum (B: it is in no
+        # histogram, or the forecast is refused) - but the union histogram and the catalog's own histogram must make the same choice
+        if case.get("synthetic_roundoff") and n_obs > 0 and case["source"] == "list" and not FX:
+            from csep.core.catalogs import CSEPCatalog
+            k0 = cats[0][0][0] if cats[0] else next(k for c in cats for k, _ in c)
+            def forecast_r():
+                region = S.region()
+                cs = []
+                for i, c in enumerate(cats):
+                    evs = [S.event(j, k, m) for j, (k, m) in enumerate(c)]
+                    if i == 0:
+                        e = list(S.event(900, k0, 0))
+                        e[0], e[5] = "roundoff", float(numpy.nextafter(S.edges[0], -numpy.inf))
+                        evs.append(tuple(e))
+                    cc = CSEPCatalog(data=evs, region=region, name="c")
+                    cc.catalog_id = i
+                    cs.append(cc)
+                return CatalogForecast(catalogs=cs, n_cat=J, region=region, start_time=G.T0, end_time=G.T1, name="cf")
+            o = call(CE.magnitude_test, forecast_r(), observed(), verbose=VB)
+            ctx.count("M_tests_with_a_synthetic_event_within_roundoff_below_the_first_edge")
+            if o.ok and o.value is not None and ctx.normalize("M:roundoff", lambda: [float(x) for x in o.value.test_distribution]) is not None:
+                tdr = [float(x) for x in o.value.test_distribution]
+                cjA = [c.copy() for c in cj]
+                cjA[0][k0, 0] += 1
+                unionA = sum(c.sum(axis=0) for c in cjA)
+                nuA = float(unionA.sum())
+
+                def d_statA(hist, n_hist):
+                    return math.fsum((math.log10(unionA[k] / J * (n_obs / (nuA / J)) + 1) - math.log10(hist[k] * (n_obs / n_hist) + 1)) ** 2 for k in range(S.nm))
+                wantA = [d_statA(c.sum(axis=0), c.sum()) for c in cjA if c.sum() > 0]
+                wantB = [d_stat(c.sum(axis=0), c.sum()) for c in cj if c.sum() > 0]
+                okA = len(tdr) == len(wantA) and all(rel(a, b) for a, b in zip(tdr, wantA))
+                okB = len(tdr) == len(wantB) and all(rel(a, b) for a, b in zip(tdr, wantB))
+                if not (okA or okB):
+                    ctx.violation("M:union_and_catalog_histograms_treat_a_roundoff_event_differently", {"got": tdr[:5], "counted_everywhere": wantA[:5], "counted_nowhere": wantB[:5]})
+            elif not o.ok and not isinstance(o.exc, ValueError):
+                ctx.unexpected(o, "M_test:synthetic_roundoff_event")
+        # ---------------- a quadtree region that does not cover all synthetic events: catalog 0 keeps its first event inside (northern
+        # tiles '0','1'), the others are moved to the southern hemisphere.  The mean rates cannot be formed from events outside the
+        # region: the forecast is refused (ValueError), never evaluated with the outside events booked into some cell
+        if case.get("partial_quadtree") and cats[0] and n_obs > 0:
+            from csep.core.catalogs import CSEPCatalog
+            from csep.core.regions import QuadtreeGrid2D
+            qo = call(lambda: QuadtreeGrid2D.from_quadkeys(["0", "1"], magnitudes=numpy.array(S.edges)))
+            if qo.ok:
+                qreg = qo.value
+                n_out = 1 + len(cats[0]) % 3
+
+                def qcat(ci, c, outside):
+                    evs = []
+                    for j, (k, m) in enumerate(c):
+                        e = list(S.event(j, k, m))
+                        e[3], e[2] = -170.0 + 7.0 * (k % 40) + 0.5, 10.0 + (k % 7)          # inside tile '0' or '1'
+                        evs.append(tuple(e))
+                    for q in range(outside):
+                        e = list(S.event(700 + q, 0, 0))
+                        e[0], e[3], e[2] = "south%d" % q, 20.0 + q, -30.0 - q
+                        evs.append(tuple(e))
+                    cc = CSEPCatalog(data=evs, region=qreg, name="c")
+                    cc.catalog_id = ci
+                    return cc
+                qf = CatalogForecast(catalogs=[qcat(0, cats[0][:1], n_out)] + [qcat(i, c, 0) for i, c in enumerate(cats) if i > 0], n_cat=J, region=qreg,
+                                     start_time=G.T0, end_time=G.T1, name="cf")
+                o = call(qf.get_expected_rates)
+                ctx.count("partial_quadtree_forecasts")
+                if o.ok:
+                    tot = float(numpy.sum(numpy.asarray(o.value.data))) * J if o.value is not None else None
+                    inside_total = 1 + sum(len(c) for c in cats[1:])
+                    if tot is None or abs(tot - inside_total) > 1e-9:
+                        ctx.violation("quadtree:events_outside_the_region_booked_into_cells", {"sum_of_mean_rates_x_J": tot, "events_inside": inside_total, "outside": n_out})
+                elif not isinstance(o.exc, ValueError):
+                    ctx.unexpected(o, "get_expected_rates:partial_quadtree")
         # ---------------- calibration test consumes delta_2 of the valid results
         valid = [r for r in all_results if r.status != "not-valid"]
         if len(valid) >= 2:
@@ -383,7 +456,9 @@ def cases(draw):
             **({"np_divide_raise": True} if draw(st.integers(0, 3)) == 0 else {}),
             **({"filtered_extra": True} if draw(st.integers(0, 2)) == 0 else {}),
             **({"np_seed": True} if draw(st.integers(0, 2)) == 0 else {}),
-            **({"obs_below_min": True} if draw(st.integers(0, 2)) == 0 else {})}
+            **({"obs_below_min": True} if draw(st.integers(0, 2)) == 0 else {}),
+            **({"synthetic_roundoff": True} if draw(st.integers(0, 2)) == 0 else {}),
+            **({"partial_quadtree": True} if draw(st.integers(0, 3)) == 0 else {})}
 
 
 def run(ctx):
